@@ -10,10 +10,7 @@
    empty_offsets   the node is an array (or dict) of n >= 1 variable-size elements that all encode to nothing
                    ([[], []] : aas, [Nothing] : ams), or a tuple with framing offsets whose members all encode to nothing
                    (([], []) : (asas)): zvariant writes nothing at all ("Empty sequence"), the format requires the
-                   framing offsets (all 0)
-   dict_key_width  the node is a dict with a variable-size key type and an entry whose key+value take n bytes where
-                   for_encoded_container(n) differs from the width the format prescribes for n data bytes plus ONE
-                   offset (n = 255, 65534, 65535, 2^32-4 ...): zvariant sizes the key's framing offset from n alone     *)
+                   framing offsets (all 0)                                                                    *)
 From ZV Require Import Base.Bytes Base.Res Base.Sig Base.SigParse DBus.Val DBus.Spec DBus.Ser C05.Val C05.Spec C05.Model.
 Local Open Scope N_scope.
 
@@ -61,12 +58,6 @@ Section K.
         b :: geparts ks vs r (off + len b)
     end.
 
-  Definition entry_size_bad (n : N) : bool :=
-    match for_encoded_container n with
-    | Ok w => negb (w =? offset_width n 1)
-    | _ => true
-    end.
-
   Definition node_bool (v : gval) : bool := has_bool (gsig v).
   Definition node_tail (v : gval) : bool :=
     match v with
@@ -84,13 +75,7 @@ Section K.
                    && negb (Nat.eqb (length (tuple_offsets (map gsig l) (ends_from 0 (gparts l 0)))) 0)
     | _ => false
     end.
-  Definition node_dict_key (v : gval) : bool :=
-    match v with
-    | GDict ks vs l => negb (gis_fixed ks) && existsb (fun p => entry_size_bad (len (concat (entry_parts vs p)))) l
-    | _ => false
-    end.
-
-  Definition node_known (v : gval) : bool := node_bool v || node_tail v || node_empty_offsets v || node_dict_key v.
+  Definition node_known (v : gval) : bool := node_bool v || node_tail v || node_empty_offsets v.
 
   (* Known_C05 *)
   Definition known_c05 (v : gval) : bool := negb (all_nodes (fun x => negb (node_known x)) v).
@@ -108,11 +93,9 @@ Section K.
     if in_class node_bool v then B "bool"
     else if in_class node_tail v then B "tail_padding"
     else if in_class node_empty_offsets v then B "empty_offsets"
-    else if in_class node_dict_key v then B "dict_key_width"
     else B "-".
   (* the classes in which encode-then-decode does not return the value (C02, GVariant half) *)
   Definition class_c02 (v : gval) : bytes :=
     if in_class node_empty_offsets v then B "empty_offsets"
-    else if in_class node_dict_key v then B "dict_key_width"
     else B "-".
 End K.
